@@ -38,6 +38,7 @@ pub enum G {
     Repl(usize, Box<G>),
     /// `$signed` / `$unsigned` — not generated (system functions are outside
     /// the operator property; see the note in `run`), kept for hand-written use
+    #[allow(dead_code)]
     SignCast(bool, Box<G>),
     /// reference to a named constant `K<i>` declared before the expression
     /// (its value normalised to the declared type)
@@ -746,14 +747,23 @@ fn lang_case(ctx: &Ctx, d: &mut Draw) -> Outcome {
     check_source(ctx, &g, top_width, top_signed)
 }
 
-pub fn run(ctx: &Ctx) {
-    // explicit sources (reproducers of listed findings): payload {"source": "..."}
+/// Explicit sources — the reproducers of the listed findings and
+/// `--replay` of such a file: payload `{"source": "...", "expect": {...}}`.
+pub fn replay_known(ctx: &Ctx) {
     ctx.run_payloads("lang-source", |p| {
         let src = p.get("source").and_then(|s| s.as_str()).unwrap_or("").to_string();
         let expect = p.get("expect").cloned().unwrap_or(json!({}));
         std::thread::spawn(move || replay_source(&src, &expect)).join().unwrap_or_else(|_| Outcome::skip("panicked"))
     });
-    let n = ctx.scale(3000, 150_000);
+}
+
+pub fn run(ctx: &Ctx) {
+    // Not generated: `$signed(e)` / `$unsigned(e)` (system functions, not
+    // operators).  Observed while building the check: `$signed(4'b1000)`
+    // assigned to 8 bits evaluates to 8'b00001000 — the value keeps its
+    // unsigned flag, so it is zero-extended (IEEE: 8'b11111000).  `as` casts
+    // are not generated either (their signedness is a Veryl-level decision).
+    let n = ctx.scale(5000, 150_000);
     ctx.run("lang", CaseCfg::cases(n).choices(600), |d| lang_case(ctx, d));
 }
 
